@@ -83,11 +83,47 @@ def render_case(c, stats=None):
 def reference(script, includes=None):
     """RefProgram or raises Discard."""
     try:
-        return refsem.run(script, includes)
+        ref = refsem.run(script, includes)
+        _check_symbolic_domain(ref)
+        return ref
     except OutOfDomain as e:
         raise Discard("domain:" + e.reason)
     except refsem.RefModelError as e:
         raise HarnessError("generator produced an invalid model: %s\n%s" % (e, render.render(script)))
+
+
+def _rsyms(v):
+    if isinstance(v, refsem.RSym):
+        yield v
+    elif isinstance(v, refsem.RList):
+        for i in v.items:
+            yield from _rsyms(i)
+    elif isinstance(v, refsem.RArray):
+        for i in v.flat():
+            yield from _rsyms(i)
+
+
+def _check_symbolic_domain(ref):
+    """Symbolic values are closures; make sure each is evaluable at some generic point
+    (constant sub-expressions such as 8**-1 are evaluated by the loader at once)."""
+    from ..valuecmp import sym_points
+    vals = []
+    for o in ref.ops:
+        vals += list(o.args or []) + [v for _, v in (o.kwargs or [])]
+    vals += list(ref.variables.values())
+    for v in vals:
+        for rs in _rsyms(v):
+            first = None
+            ok = False
+            for beta in sym_points(rs.syms):
+                try:
+                    rs.eval(beta)
+                    ok = True
+                    break
+                except OutOfDomain as e:
+                    first = first or e
+            if not ok:
+                raise first
 
 
 class Discard(Exception):
